@@ -61,7 +61,7 @@ pub fn cases_for(ctx: &Ctx) -> (Vec<Case>, u32) {
 /// processed by increasing number of deviations; a failure whose signatures are all explained by
 /// already recorded failures of sub-label-sets in the same group is attributed to them.
 pub struct Attribution {
-    roots: Vec<(String, BTreeSet<String>, BTreeSet<String>, String)>, // group, labels, sigs, key
+    roots: Vec<(String, BTreeSet<String>, BTreeSet<String>, String, usize)>, // family, labels, sigs, key, number of raw labels
     /// relaxed: a failure is attributed to any failing case of the same family whose labels are a
     /// subset (signatures are not compared: the same lost construct shows as a syntax error in one
     /// context and as a shorter list in another)
@@ -103,8 +103,8 @@ impl Attribution {
         let nsigs: BTreeSet<String> = sigs.iter().map(norm_sig).collect();
         let mut covered: BTreeSet<String> = BTreeSet::new();
         let mut first: Option<String> = None;
-        for (f, rl, rs, key) in &self.roots {
-            if *f == family && rl.is_subset(&lset) && (self.relaxed || !rs.is_disjoint(&nsigs)) && (rl.len() < lset.len() || key.split('/').next() != Some(group)) {
+        for (f, rl, rs, key, raw_n) in &self.roots {
+            if *f == family && rl.is_subset(&lset) && (self.relaxed || !rs.is_disjoint(&nsigs)) && (*raw_n < labels.len() || key.split('/').next() != Some(group)) {
                 covered.extend(rs.iter().cloned());
                 if first.is_none() {
                     first = Some(key.clone());
@@ -117,7 +117,7 @@ impl Attribution {
             }
         }
         let key = format!("{}/{}#{}", group, if labels.is_empty() { "default".to_string() } else { labels.join(",") }, nsigs.iter().cloned().collect::<Vec<_>>().join("+"));
-        self.roots.push((family, lset, nsigs, key.clone()));
+        self.roots.push((family, lset, nsigs, key.clone(), labels.len()));
         key
     }
 }
